@@ -1,0 +1,70 @@
+package vm_test
+
+import (
+	"testing"
+
+	"github.com/elk-language/elk/value"
+	"github.com/elk-language/elk/vm"
+)
+
+func TestHashMapCopyOverlappingKeys(t *testing.T) {
+	newPair := func(k, v int) value.PairOfValue {
+		return value.MakePairOfValue(value.SmallInt(k).ToValue(), value.SmallInt(v).ToValue())
+	}
+
+	tests := map[string]func(x, y *vm.HashMapOfValue) (*vm.HashMapOfValue, value.Value){
+		"concat": func(x, y *vm.HashMapOfValue) (*vm.HashMapOfValue, value.Value) {
+			return vm.HashMapOfValueConcat(nil, x, y)
+		},
+		"concat interface": func(x, y *vm.HashMapOfValue) (*vm.HashMapOfValue, value.Value) {
+			return vm.HashMapOfValueConcatInterface(nil, x, y)
+		},
+	}
+
+	for name, concat := range tests {
+		t.Run(name, func(t *testing.T) {
+			x := vm.MustNewHashMapOfValueWithElements(nil, newPair(1, 2), newPair(3, 4))
+			y := vm.MustNewHashMapOfValueWithElements(nil, newPair(1, 5))
+
+			result, err := concat(x, y)
+			if !err.IsUndefined() {
+				t.Fatalf("unexpected error: %s", err.Inspect())
+			}
+			if result.Length() != 2 {
+				t.Fatalf("expected length 2, got %d", result.Length())
+			}
+			if result.OccupiedSlots != 2 {
+				t.Fatalf("expected 2 occupied slots, got %d", result.OccupiedSlots)
+			}
+			got, err := vm.HashMapOfValueGet(nil, result, value.SmallInt(1).ToValue())
+			if !err.IsUndefined() {
+				t.Fatalf("unexpected error: %s", err.Inspect())
+			}
+			if got != value.SmallInt(5).ToValue() {
+				t.Fatalf("expected 5 under key 1, got %s", got.Inspect())
+			}
+		})
+	}
+}
+
+func TestHashSetCopyOverlappingValues(t *testing.T) {
+	target := vm.MustNewHashSetOfValueWithCapacityAndElements(
+		nil,
+		5,
+		value.SmallInt(1).ToValue(),
+		value.SmallInt(2).ToValue(),
+	)
+	source := vm.MustNewHashSetOfValueWithElements(
+		nil,
+		value.SmallInt(1).ToValue(),
+		value.SmallInt(3).ToValue(),
+	)
+
+	err := vm.HashSetOfValueCopy(nil, target, source)
+	if !err.IsUndefined() {
+		t.Fatalf("unexpected error: %s", err.Inspect())
+	}
+	if target.Length() != 3 {
+		t.Fatalf("expected length 3, got %d", target.Length())
+	}
+}
